@@ -2,77 +2,91 @@ import Verif.Lemmas.C04
 namespace Verif.C04
 open Verif.Py
 
-theorem to_is_over' (f : List Rat → Rat) (s : Src) (target step st sp : Int) (m : Method) (wh : Option Bool)
-    (ht : targetStep s.timesteps target m = .ok step) (h0 : step ≠ 0)
-    (hst : s.start? = some st) (hsp : s.stop? = some sp) :
-    downTo f s target (some m) wh = over f s (pairs (arange st sp step)) wh := by
-  unfold downTo
-  simp only [ht, hst, hsp, if_neg h0]
+theorem like_values' (pw : Bool) (f : List Rat → Rat) (c : Cont) (hdt : 0 < c.dt) (ref : Src) (ds refc : List Sample)
+    (h : like pw f (.cont c) ref = .ok (ds, refc)) :
+    ds = (likeKept pw c ref.timestamps).map fun (p : Int × Int) =>
+      (p.1, f ((c.samples.filter (inWin (p.1 - p.2) p.1)).map (·.2))) := by
+  obtain ⟨c', r, hc, rfl, hds, _⟩ := like_ok pw f _ ref ds refc h
+  cases hc
+  rw [hds]; unfold likeWindows
+  simp only [List.map_map, Src.timestamps]
+  apply List.map_congr_left
+  intro x _
+  simp only [Function.comp]
+  rw [getitem_samples' (.cont c) hdt]
+  rfl
 
-theorem cont_span_div (c : Cont) (k : Nat) (hdt : 0 < c.dt) :
-    ((c.stop - c.start) / ((k : Int) * c.dt)).toNat = c.data.length / k ∧
-    ((c.stop - c.start) % ((k : Int) * c.dt) = 0 ↔ c.data.length % k = 0) := by
-  have e : c.stop - c.start = c.dt * (c.data.length : Int) := by unfold Cont.stop; rw [Int.mul_comm]; omega
-  rw [e, Int.mul_comm (k : Int) c.dt, Int.mul_ediv_mul_of_pos _ _ hdt, Int.mul_emod_mul_of_pos _ _ hdt]
-  constructor
-  · have : (c.data.length : Int) / (k : Int) = ((c.data.length / k : Nat) : Int) := by push_cast; rfl
-    rw [this]; exact Int.toNat_natCast _
-  · have : (c.data.length : Int) % (k : Int) = ((c.data.length % k : Nat) : Int) := by push_cast; rfl
-    rw [this]
-    constructor
-    · intro h
-      rcases Int.mul_eq_zero.mp h with h | h
-      · omega
-      · exact_mod_cast h
-    · intro h; rw [h]; simp
+/-- For a predicate that can only switch from true to false along the list, `takeWhile` is `filter`. -/
+theorem take_takeWhile_eq_filter {α} (p : α → Bool) :
+    ∀ (Z : List α), Z.Pairwise (fun x y => p y = true → p x = true) →
+      Z.take (Z.takeWhile p).length = Z.filter p := by
+  intro Z
+  induction Z with
+  | nil => intro _; rfl
+  | cons x xs ih =>
+    intro H
+    obtain ⟨hx, hxs⟩ := List.pairwise_cons.mp H
+    by_cases hp : p x = true
+    · simp [hp, ih hxs]
+    · have : xs.filter p = [] := by
+        rw [List.filter_eq_nil_iff]; intro y hy hpy; exact hp (hx y hy hpy)
+      simp [hp, this]
 
-theorem to_cont_nonmult (f : List Rat → Rat) (c : Cont) (k : Nat) (m : Method) (hdt : 0 < c.dt) (hk : 0 < k)
-    (hn : k ≤ c.data.length) (hnm : c.data.length % k ≠ 0) :
-    downTo f (.cont c) ((k : Int) * c.dt) (some m) (some true) =
-      .ok ((List.range (c.data.length / k)).map fun (i : Nat) =>
-        (c.start + (i : Int) * ((k : Int) * c.dt) + (((k : Int) - 1) * c.dt) / 2,
-          f ((c.data.drop (i * k)).take k))) := by
-  have hkd : 0 < (k : Int) * c.dt := Int.mul_pos (by omega) hdt
-  obtain ⟨hq, hr⟩ := cont_span_div c k hdt
-  rw [to_is_over' f (.cont c) _ _ c.start c.stop m _ (targetStep_cont c.dt k m hdt hk) (by omega) rfl rfl,
-    pairs_arange_nonmult _ _ _ hkd (fun h => hnm (hr.mp h)), fullWindows, hq]
-  exact over_blocks f c k _ hdt hk (Nat.div_pos hn hk) (Nat.div_mul_le_self _ _)
+/-- Two threshold predicates along a list: `l[i:j]` with `i`, `j` the lengths of the prefixes on which
+    they hold is the filter "not the first, but the second". -/
+theorem take_drop_takeWhile {α} (p1 p2 : α → Bool) :
+    ∀ (Z : List α), Z.Pairwise (fun x y => p1 y = true → p1 x = true) →
+      Z.Pairwise (fun x y => p2 y = true → p2 x = true) →
+      (Z.take (Z.takeWhile p2).length).drop (Z.takeWhile p1).length = Z.filter (fun z => !p1 z && p2 z) := by
+  intro Z
+  induction Z with
+  | nil => intro _ _; rfl
+  | cons x xs ih =>
+    intro H1 H2
+    obtain ⟨hx1, hxs1⟩ := List.pairwise_cons.mp H1
+    obtain ⟨hx2, hxs2⟩ := List.pairwise_cons.mp H2
+    by_cases hp2 : p2 x = true
+    · by_cases hp1 : p1 x = true
+      · simp [hp1, hp2, ih hxs1 hxs2]
+      · have hnone : ∀ y ∈ xs, p1 y = false := by
+          intro y hy
+          cases hpy : p1 y with
+          | false => rfl
+          | true => exact absurd (hx1 y hy hpy) hp1
+        have hf : xs.filter (fun z => !p1 z && p2 z) = xs.filter p2 := by
+          apply List.filter_congr
+          intro y hy; simp [hnone y hy]
+        simp [hp1, hp2, hf, take_takeWhile_eq_filter p2 xs hxs2]
+    · have : (x :: xs).filter (fun z => !p1 z && p2 z) = [] := by
+        rw [List.filter_eq_nil_iff]
+        intro y hy hpy
+        simp only [Bool.and_eq_true] at hpy
+        rcases List.mem_cons.mp hy with rfl | hy'
+        · exact hp2 hpy.2
+        · exact hp2 (hx2 y hy' hpy.2)
+      rw [this]
+      simp [List.takeWhile_cons, hp2]
 
-theorem to_cont_mult (f : List Rat → Rat) (c : Cont) (k : Nat) (m : Method) (hdt : 0 < c.dt) (hk : 0 < k)
-    (hn : 2 * k ≤ c.data.length) (hnm : c.data.length % k = 0) :
-    downTo f (.cont c) ((k : Int) * c.dt) (some m) (some true) =
-      .ok ((List.range (c.data.length / k - 1)).map fun (i : Nat) =>
-        (c.start + (i : Int) * ((k : Int) * c.dt) + (((k : Int) - 1) * c.dt) / 2,
-          f ((c.data.drop (i * k)).take k))) := by
-  have hkd : 0 < (k : Int) * c.dt := Int.mul_pos (by omega) hdt
-  obtain ⟨hq, hr⟩ := cont_span_div c k hdt
-  have h2 : 2 ≤ c.data.length / k := (Nat.le_div_iff_mul_le hk).mpr hn
-  rw [to_is_over' f (.cont c) _ _ c.start c.stop m _ (targetStep_cont c.dt k m hdt hk) (by omega) rfl rfl,
-    pairs_arange_mult _ _ _ hkd (hr.mpr hnm), fullWindows, hq, blockWins_dropLast]
-  refine over_blocks f c k _ hdt hk (by omega) ?_
-  have := Nat.div_mul_le_self c.data.length k
-  have : (c.data.length / k - 1) * k ≤ c.data.length / k * k := Nat.mul_le_mul_right k (by omega)
-  omega
-
-theorem to_cont_short (f : List Rat → Rat) (c : Cont) (k : Nat) (m : Method) (wh : Option Bool) (hdt : 0 < c.dt)
-    (hk : 0 < k) (hn : c.data.length ≤ k) :
-    downTo f (.cont c) ((k : Int) * c.dt) (some m) wh = .error .value := by
-  have hkd : 0 < (k : Int) * c.dt := Int.mul_pos (by omega) hdt
-  obtain ⟨hq, hr⟩ := cont_span_div c k hdt
-  rw [to_is_over' f (.cont c) _ _ c.start c.stop m _ (targetStep_cont c.dt k m hdt hk) (by omega) rfl rfl]
-  have hempty : pairs (arange c.start c.stop ((k : Int) * c.dt)) = [] := by
-    by_cases h : c.data.length % k = 0
-    · rw [pairs_arange_mult _ _ _ hkd (hr.mpr h), fullWindows, hq, blockWins_dropLast]
-      have : c.data.length / k - 1 = 0 := by
-        rcases Nat.lt_or_eq_of_le hn with h1 | h1
-        · rw [Nat.div_eq_of_lt h1]
-        · rw [h1, Nat.div_self hk]
-      rw [this]; rfl
-    · rw [pairs_arange_nonmult _ _ _ hkd (fun h' => h (hr.mp h')), fullWindows, hq]
-      have : c.data.length / k = 0 := by
-        rcases Nat.lt_or_eq_of_le hn with h1 | h1
-        · exact Nat.div_eq_of_lt h1
-        · rw [h1, Nat.mod_self] at h; exact absurd rfl h
-      rw [this]; rfl
-  rw [hempty]; rfl
+/-- Which reference samples are kept, as the code is (`pw = false`): for a sorted reference exactly
+    those with `T - δ₀ ≥ start` (δ₀ = the FIRST window length) and `T < stop`. -/
+theorem likeKept_spec' (c : Cont) (T : List Int) (hs : T.Pairwise (· < ·)) :
+    likeKept false c T = (T.zip (likeDeltas T)).filter fun p =>
+      decide (c.start ≤ p.1 - (likeDeltas T).headD 0) && decide (p.1 < c.stop) := by
+  unfold likeKept likeStart
+  rw [C01.pySlice_nonneg _ _ _ (by omega) (by omega)]
+  simp only [Int.toNat_natCast, Bool.false_eq_true, if_false, searchsortedLeft]
+  generalize hZ : T.zip (likeDeltas T) = Z
+  generalize (likeDeltas T).headD 0 = d0
+  have hT : T = Z.map (·.1) := by rw [← hZ, List.map_fst_zip (likeDeltas_length T)]
+  rw [hT, List.map_map, List.takeWhile_map, List.takeWhile_map, List.length_map, List.length_map]
+  have hZs : Z.Pairwise (fun a b => a.1 < b.1) := by rw [hT, List.pairwise_map] at hs; exact hs
+  rw [take_drop_takeWhile]
+  · apply List.filter_congr
+    intro z _
+    simp only [Function.comp]
+    by_cases h1 : z.1 - d0 < c.start <;> by_cases h2 : z.1 < c.stop <;> simp [h1, h2] <;> omega
+  · refine hZs.imp ?_
+    intro a b hab; simp only [Function.comp, decide_eq_true_eq]; omega
+  · refine hZs.imp ?_
+    intro a b hab; simp only [Function.comp, decide_eq_true_eq]; omega
 end Verif.C04
